@@ -275,7 +275,7 @@ func (e *Engine) intrinsic2(name string, args []any) (any, bool) {
 
 func (e *Engine) invokeMethod(recv IfaceV, m *types.Func, args []any) any {
 	if recv.T == nil {
-		panic(pathEnd{"NIL IFACE INVOKE " + m.Name()})
+		e.panicObligation("PANIC nil interface method call " + m.Name())
 	}
 	if _, ok := recv.V.(OpaqueV); ok {
 		return nil
